@@ -27,7 +27,7 @@ def run(ctx):
         # length 5 over the 14-letter alphabet is 580k inputs; keep the three 12-letter ones at 5 and Mix at 4
         pass
     for a in alphabets:
-        nn = n if (ctx.quick or a != "SigmaMix") else 4
+        nn = n if (ctx.quick or a in ("SigmaStr", "SigmaNum")) else 4   # 271k inputs each at length 5
         name = "%s%d" % (a, nn)
         c = "Gen_c05_%s.cfg" % name
         open(ctx.path("spec", c), "w").write(cfg(nn, a))
